@@ -1,4 +1,4 @@
-import Ark.Generated.Facts
+import Ark.Generated.FactsMutex
 import Ark.Props.C07
 
 namespace Ark.Props.C13
